@@ -152,6 +152,26 @@ type SSelfHolder struct {
 	S SSelf `plenc:"2"`
 }
 
+// every codec family in one struct, for steady-state concurrent use (race mode); not
+// part of the generators' corpus
+type Steady struct {
+	T  time.Time            `plenc:"1"`
+	Ts []time.Time          `plenc:"2"`
+	PT *time.Time           `plenc:"3"`
+	S  string               `plenc:"4"`
+	I  Inner2               `plenc:"5"`
+	L  []Inner2             `plenc:"6"`
+	F  []float64            `plenc:"7"`
+	M  map[string]time.Time `plenc:"8"`
+	N  []string             `plenc:"9"`
+	B  []byte               `plenc:"10"`
+	IS string               `plenc:"11,intern"`
+	PM map[string]Inner2    `plenc:"12,proto"`
+	PL *[]string            `plenc:"13"`
+	U  []uint32             `plenc:"14"`
+	FI int64                `plenc:"15,flat"`
+}
+
 var staticTypes = map[string]reflect.Type{}
 
 func regStatic(v interface{}) {
